@@ -51,6 +51,11 @@ Theorem C08_references_resolve_back : forall f e p c,
   exists e', item_at_cursor f (sp_file p) c = Some (p, e') /\ is_reference e e' = true.
 Proof. exact references_resolve_back. Qed.
 
+(* go-to-definition stays inside the reference class: the entity `find_definition_of` answers is the
+   declaration itself or an entity DeclaredBy it (subprogram body, full constant, protected type body) *)
+Theorem C08_definition_is_counterpart : forall f d, is_reference d (find_definition_of f d) = true.
+Proof. exact find_definition_counterpart. Qed.
+
 (* ---- the run-time checker ---- *)
 Theorem C08_wf_forest_fast_sound : forall f, wf_forest_fast f = true -> wf_forest f = true.
 Proof. exact wf_forest_fast_sound. Qed.
@@ -134,6 +139,7 @@ Print Assumptions C08_cursor_result_is_reported.
 Print Assumptions C08_cursor_in_references_any.
 Print Assumptions C08_cursor_in_references.
 Print Assumptions C08_references_resolve_back.
+Print Assumptions C08_definition_is_counterpart.
 Print Assumptions C08_wf_forest_fast_sound.
 Print Assumptions C08_checker_sound.
 Print Assumptions C08_pruning_needs_wf.
